@@ -17,11 +17,11 @@ import (
 // Spec identifies one simulated run completely.
 type Spec struct {
 	Prop      string `json:"prop"`
-	GenSeed   uint64 `json:"gen_seed"`   // decides the generated scenario
-	SchedSeed uint64 `json:"sched_seed"` // decides every scheduling/fault choice
+	GenSeed   uint64 `json:"gen_seed"`         // decides the generated scenario
+	SchedSeed uint64 `json:"sched_seed"`       // decides every scheduling/fault choice
 	Masked    bool   `json:"masked,omitempty"` // Keep is in force (minimised run)
 	Keep      []int  `json:"keep,omitempty"`   // indices of generated ops kept when Masked
-	Strategy  int    `json:"strategy"`   // -1 = drawn from SchedSeed
+	Strategy  int    `json:"strategy"`         // -1 = drawn from SchedSeed
 	Tier      string `json:"tier"`
 	KeepLog   bool   `json:"-"`
 }
@@ -50,11 +50,11 @@ type Result struct {
 
 // Ctx is handed to a property's run function (executing as the root simulated goroutine).
 type Ctx struct {
-	Spec  Spec
-	Gen   *Rand // generation PRNG (scenario)
-	S     *simrt.Sched
-	Res   *Result
-	W     *World // set by the property when it builds a world
+	Spec     Spec
+	Gen      *Rand // generation PRNG (scenario)
+	S        *simrt.Sched
+	Res      *Result
+	W        *World // set by the property when it builds a world
 	Thorough bool
 }
 
@@ -102,6 +102,14 @@ func Register(p *PropDef) { Props[p.ID] = p }
 func RunOne(t *testing.T, spec Spec) (res *Result) {
 	res = &Result{Spec: spec, Probes: map[string]int{}, Faults: map[string]int{}}
 	p := Props[spec.Prop]
+	raceOnly := false
+	if spec.Prop == "C04R" {
+		// race-detector build: a mix of scenario families; only crashes and
+		// the detector's reports count here, the families' own oracles are
+		// decided by their own checks
+		p = Props[raceMix[int(spec.GenSeed>>8)%len(raceMix)]]
+		raceOnly = true
+	}
 	if p == nil {
 		res.Tooling = "unknown property " + spec.Prop
 		return
@@ -176,7 +184,7 @@ func RunOne(t *testing.T, spec Spec) (res *Result) {
 			res.Probes["time_advances"] += s.TimeAdvances
 			res.Probes["steps_multi_enabled"] += s.MultiEnabled
 			res.Probes["map_ranges_ordered"] += s.MapRanges
-			for k, v := range s.Counters {
+			for k, v := range s.Counters() {
 				res.Probes[k] += v
 			}
 			if spec.KeepLog {
@@ -187,9 +195,22 @@ func RunOne(t *testing.T, spec Spec) (res *Result) {
 			}
 		})
 	})
+	if raceOnly {
+		var keep []string
+		for _, v := range res.Violations {
+			if strings.HasPrefix(v, "panic:") {
+				keep = append(keep, v)
+			}
+		}
+		res.Violations = keep
+		if !strings.Contains(res.Tooling, "panic outside") {
+			res.Tooling = ""
+		}
+	}
 	if len(res.Violations) > 0 {
 		res.Sig = Signature(res.Violations[0])
 	}
+	CollectRaces(res)
 	return
 }
 
